@@ -206,7 +206,12 @@ func checkC12(c *Ctx) {
 		ok := filepath.Join(dir, fmt.Sprintf("ok-%d.%s", ci, cb.sink))
 		res := runChild("", "c12-render", []string{cb.sink, cb.r, ok, strconv.Itoa(cb.size), "-1"}, nil, 2*time.Minute)
 		if !strings.Contains(res.Out, "RETURNED") {
-			c.Inconclusive(fmt.Sprintf("fault-free control %v did not return: %s", cb, lastLines(res.Out, 5)))
+			if strings.Contains(res.Out, "all goroutines are asleep - deadlock!") {
+				c.Violate("", fmt.Sprintf("render-hangs To%s with %s renderer, no fault at all: the call never returns (deadlock): %s",
+					strings.ToUpper(cb.sink), cb.r, lastLines(trimDump(res.Out), 6)), map[string]any{"combo": fmt.Sprint(cb), "child_output_tail": tailStr(res.Out, 3000)})
+			} else {
+				c.Inconclusive(fmt.Sprintf("fault-free control %v did not return: %s", cb, lastLines(res.Out, 5)))
+			}
 			continue
 		}
 		st, err := os.Stat(ok)
